@@ -25,11 +25,13 @@ Fixpoint array_lens (t: ty) : list (list tt) :=
     (match w with Some ws => flat_map array_lens ws | None => [] end)
   end.
 
-(* Type::base (reference prefix + Category::path) and Type::wraps (the base strings of the type and, recursively, of everything it
-   wraps), as tokens; a type parameter counts as USED by a field when its name equals the field type's own path or one of these strings *)
+(* Type::wraps: the names (Category::path, WITHOUT the reference prefix since the repair of D8) of the type and, recursively, of everything it
+   wraps, as tokens; a type parameter counts as USED by a field when it NAMES the field type's own path or one of these strings: the
+   path is the parameter itself, or starts with it (`T::Item`, repair of D8b) *)
 Definition base_tok (t: ty) : list tt := match t with Ty c _ rt _ => pr_rt rt ++ pr_cat c end.
 Fixpoint wraps_list (t: ty) : list (list tt) :=
-  match t with Ty c w rt ao => (pr_rt rt ++ pr_cat c) :: match w with Some ws => flat_map wraps_list ws | None => [] end end.
-Definition is_name (n: string) (toks: list tt) : bool := match toks with [TId x] => String.eqb x n | _ => false end.
+  match t with Ty c w rt ao => pr_cat c :: match w with Some ws => flat_map wraps_list ws | None => [] end end.
+Definition is_name (n: string) (toks: list tt) : bool :=
+  match toks with [TId x] => String.eqb x n | TId x :: TP PColon :: TP PColon :: _ => String.eqb x n | _ => false end.
 Definition param_used (n: string) (t: ty) : bool :=
   is_name n (match t with Ty c _ _ _ => pr_cat c end) || existsb (is_name n) (wraps_list t).
